@@ -36,7 +36,12 @@ WORKLOADS: dict[str, list[dict]] = {
     # a long task next to one that works for a while and only then calls a sub-task: a stop finds both alive and
     # the second one starts waiting while the stop is already in progress
     "slow-and-late-parent": [L(0, ["slow", 0.4, 1]), {**L(), "pre_sleep": 0.15, "kids": [L()], "call": "single"}],
+    # a retrying task next to a long one, with a second (peer) runner that claims whatever is re-queued for a retry as
+    # soon as it sees it: the stopping runner may still list a task thread for an invocation the peer now owns
+    "retry-and-slow+peer": [L(1, ["retry_until", 2, 1]), L(0, ["slow", 0.4, 1])],
 }
+PEER_ID = "peer-runner"
+PEER_WINDOW = 0.2  # seconds of virtual time in which the stop is injected for the peer workloads
 
 
 def simulate(desc: dict, stop_at: int | None, choices: list[int] | None = None, expect: Any = None) -> sched.Execution:
@@ -51,11 +56,27 @@ def simulate(desc: dict, stop_at: int | None, choices: list[int] | None = None, 
             t = tasks_prog.STATE["tasks"][("p", spec["mr"])]
             roots.append(str(t(spec, f"r{i}").invocation_id))
 
+    peer_on = desc["workload"].endswith("+peer")
+
+    def peer() -> None:
+        """a second runner: claims (and never runs) an invocation as soon as one awaits a retry in the queue"""
+        import pynenc.runner.thread_runner as trmod
+        from pynenc.runner.runner_context import RunnerContext
+
+        pctx = RunnerContext(runner_cls="ThreadRunner", runner_id=PEER_ID)
+        while state["stopped_at"] is None and env.CLOCK.now - runsim.T0 < 2 * PEER_WINDOW:
+            if any((sim.record(i) or ("?",))[0] == "RETRY" for i in sim.queue()):
+                for got in sim.app.orchestrator.get_invocations_to_run(1, pctx):
+                    state.setdefault("peer_claimed", []).append(str(got.invocation_id))
+            trmod.time.sleep(0.003)
+
     def at_point() -> None:
         s = sim.sched
         n = len(s.trace)
         if state["started_at"] is None and sim.runner.running:
             state["started_at"] = n
+        if peer_on and "window_end" not in state and env.CLOCK.now - runsim.T0 > PEER_WINDOW:
+            state["window_end"] = n
         if state["stopped_at"] is not None or state["started_at"] is None:
             return
         if stop_at is None or stop_at == "end":
@@ -63,7 +84,7 @@ def simulate(desc: dict, stop_at: int | None, choices: list[int] | None = None, 
             # comes first - a workload that got stuck under the explored schedule is stopped like any other)
             done = len(roots) == len(WORKLOADS[desc["workload"]]) and all(
                 (sim.record(i) or ("?",))[0] in FINAL for i in sim.all_ids())
-            if done or (stop_at == "end" and env.CLOCK.now - runsim.T0 > 1.0):
+            if done or (stop_at == "end" and env.CLOCK.now - runsim.T0 > (2 * PEER_WINDOW if peer_on else 1.0)):
                 state["stopped_at"] = n
                 state["stopped_because"] = "done" if done else "time"
                 sim.runner.stop_runner_loop()
@@ -71,7 +92,8 @@ def simulate(desc: dict, stop_at: int | None, choices: list[int] | None = None, 
             state["stopped_at"] = n
             sim.runner.stop_runner_loop()
 
-    ex = sim.run(client, choices, expect, horizon=30.0, max_points=40000, on_point=at_point)
+    ex = sim.run(client, choices, expect, horizon=30.0, max_points=40000, on_point=at_point,
+                 extra=[("peer", peer)] if peer_on else None)
     ex.state = state
     ex.roots = roots
     return ex
@@ -101,6 +123,8 @@ def judge(ex: sched.Execution, desc: dict, p: Partial, stop_at: int | None) -> N
             continue
         if st in AVAILABLE and owner is None and inv in q:
             continue
+        if owner == PEER_ID:
+            continue  # re-queued by the stopped runner and claimed by the peer since: the peer's responsibility
         kind = "owned-by-stopped-runner" if owner == rid else ("not-queued" if inv not in q else "bad-status")
         p.violation({"clause": f"claimed-invocation-left-{st}:{kind}", **base},
                     {"stop_at": stop_at, "id": inv[-2:], "record": [st, owner], "queue": [x[-2:] for x in q]}, {})
@@ -182,10 +206,14 @@ def run(ctx: Ctx) -> None:
                 desc = dict(backend=backend, slots=slots, workload=wl)
                 if only and only not in e1.desc_key(desc):
                     continue
-                ref = simulate(desc, None)
+                peer_wl = wl.endswith("+peer")
+                if peer_wl and slots == 1:
+                    continue  # the long task must run next to the retrying one
+                # (the peer never runs what it claims: the reference run of a peer workload ends on the clock)
+                ref = simulate(desc, "end" if peer_wl else None)
                 ctx.count("schedules")
                 ctx.count("transitions", len(ref.trace))
-                ref2 = simulate(desc, None)
+                ref2 = simulate(desc, "end" if peer_wl else None)
                 if sched.prefix_hashes(ref)[-1] != sched.prefix_hashes(ref2)[-1]:
                     raise sched.HarnessError(f"reference run not reproducible: {desc}")
                 ctx.count("traces_validated_against_impl")
@@ -195,6 +223,9 @@ def run(ctx: Ctx) -> None:
                     ctx.violation({"clause": "workload-does-not-finish-without-stop", **desc}, {"outcome": ref.outcome}, {})
                     continue
                 ks = list(range(start, end + 1))
+                if peer_wl:
+                    ks = [k for k in ks if k <= ref.state.get("window_end", end)]
+                    ctx.extra.setdefault("peer_claimed_in_reference_run", {})[e1.desc_key(desc)] = len(ref.state.get("peer_claimed", []))
                 if not ctx.thorough and backend == env.SQLITE:
                     ks = ks[::3]  # SQLite runs have ~3x more points (one per statement): every third in quick
                     ctx.assume("quick tier: on SQLite the stop is injected at every third scheduling point (thorough: every point)")
